@@ -112,6 +112,7 @@ func Load(cfg LoadCfg) (*Prog, error) {
 	if len(cfg.Overlay) > 0 {
 		// mutant loads replace each other: drop descriptions of dead programs
 		descCache = map[ssa.Value]string{}
+		resetCachesG4()
 		helperIdx = map[*ssa.Function]*helperInfo{}
 		aliasOld = map[*ssa.Function]string{}
 	}
